@@ -19,6 +19,7 @@ R11.4 the root weighs each unique column by its count: self.counts comes from _i
 R11.6 a (tips, outgroup) scope names the same edges for every rooting: get_edge_names always re-roots at the outgroup.
 R11.7 a zero branch length is kept (default only for a missing length).
 R09.6 / R09.13 (shared with C09) the re-rooting operations keep every path length.
+R07.8 (shared with C07) a rule's numeric fields (init=0.0) are selected by `is not None`.
 R11.5 child/likelihood pairing in the product: the per-child index arrays are the transposed unique
       patterns in children order, paired positionally with the children once (zip), and the kernel reads
       child_indexes[child] with likelihoods[child] for the same child.
@@ -461,5 +462,10 @@ def run(chk):
 
     c09.r09_6(chk)
     c09.r09_13(chk)
+    # a zero-length piece of a split edge must also survive being SET as a rule (set_param_rule('length', init=0.0)): the
+    # numeric fields of a parameter rule are selected by `is not None` -- C07's R07.8, the same clause as R11.7 one step later
+    from . import c07
+
+    c07.r07_8(chk)
     chk.assume("tree edge names are unique (enforced when a likelihood function is made) and set_alignment asserts that sequence names and tip names coincide")
     chk.assume("not decided: invariance under moving the root (time-reversible models) and under splitting an edge (time-homogeneous models); these are numerical identities")
